@@ -49,7 +49,7 @@ def main():
     cdir, harness, model = st
     known_listed = {k['id']: k for k in known_findings('C15')}
     cases = []
-    SEG = ['a', 'b', 'c', 'index.html', 'x:y', '%41', 'é']
+    SEG = ['a', 'b', 'c', 'index.html', 'x:y', '12:30', '%41:b', '_b:x', 'é']
     n = 20000 if thorough else 4000
     for fam in ('uri', 'iri'):
         g = Gen(random.Random(rnd.random()), fam)
@@ -61,7 +61,7 @@ def main():
                 if k < 0.12:
                     segl = [g.pick(SEG + ['', '.', '..']) for _ in range(g.pick([0, 1, 2, 3]))]
                 else:
-                    segl = shared + [g.pick(SEG[:6] if fam == 'uri' else SEG) for _ in range(g.pick([0, 0, 1, 1, 2, 3]))]
+                    segl = shared + [g.pick(SEG[:8] if fam == 'uri' else SEG) for _ in range(g.pick([0, 0, 1, 1, 2, 3]))]
                     if g.r.random() < 0.3: segl = segl + ['']
                 p = '/' + '/'.join(segl) if (au is not None or g.r.random() < 0.85) else '/'.join(segl)
                 if au is None and p.startswith('//'): p = '/x' + p[1:]
